@@ -539,6 +539,18 @@ func (r *SigRequester) Act(e *Env) {
 	if e.Draining || !e.Ch.Bool("sigreq", r.Rate) {
 		return
 	}
+	// sometimes a burst: requests created in one block share their expiry height, so their time-outs and retries meet in one end block
+	n := 1
+	if e.Ch.Bool("sigreq.burst", 150) {
+		n = 2 + e.Ch.Intn("sigreq.burst.n", 3)
+		e.St.Probe("signature_requests_in_a_burst")
+	}
+	for i := 0; i < n; i++ {
+		r.once(e, i)
+	}
+}
+
+func (r *SigRequester) once(e *Env, burstIdx int) {
 	ctx := e.Ctx()
 	bk := e.App().BandtssKeeper
 	tk := e.App().TSSKeeper
@@ -550,7 +562,7 @@ func (r *SigRequester) Act(e *Env) {
 			open++
 		}
 	}
-	if open >= r.MaxOpen {
+	if open+burstIdx >= r.MaxOpen+2*min(burstIdx, 1) {
 		return
 	}
 	r.n++
@@ -695,27 +707,85 @@ func sortedMemberIDs(ams []tsstypes.AssignedMember) []uint64 {
 // TSSParamChurn lets governance change the tss parameters mid-run (queue limit, signing period, attempts): limits that were
 // satisfied when state was written may be exceeded by existing state afterwards.
 type TSSParamChurn struct {
-	Rate int
+	Rate    int
+	aimedAt map[uint64]bool
 }
 
 func (p *TSSParamChurn) OnBlock(e *Env, blk *world.BlockRecord) {}
 func (p *TSSParamChurn) Act(e *Env) {
-	if e.Draining || e.Step < 4 || !e.Ch.Bool("tss.churn", p.Rate) {
+	if e.Draining || e.Step < 4 {
 		return
 	}
 	gov := getGov(e)
 	if gov == nil {
 		return
 	}
+	// event-triggered: a signing has reached its second or later attempt -> governance moves the attempt limit around it
+	{
+		tk := e.App().TSSKeeper
+		cnt := tk.GetSigningCount(e.Ctx())
+		for sid := cnt; sid > 0 && sid+20 > cnt; sid-- {
+			sg, err := tk.GetSigning(e.Ctx(), tss.SigningID(sid))
+			if err != nil || sg.Status != tsstypes.SIGNING_STATUS_WAITING || sg.CurrentAttempt < 2 || p.aimedAt[sid] {
+				continue
+			}
+			if p.aimedAt == nil {
+				p.aimedAt = map[uint64]bool{}
+			}
+			p.aimedAt[sid] = true
+			if !e.Ch.Bool("tss.churn.trigger", 350) {
+				continue
+			}
+			np := tk.GetParams(e.Ctx())
+			np.MaxSigningAttempt = uint64(int(sg.CurrentAttempt) - 1 + e.Ch.Intn("tss.churn.trigger.off", 3))
+			if np.Validate() == nil && np.MaxSigningAttempt != tk.GetParams(e.Ctx()).MaxSigningAttempt {
+				gov.Propose(e, "params_tss", nil, &tsstypes.MsgUpdateParams{Authority: govAuthority, Params: np})
+				e.St.Fault("tss_params_changed_by_governance")
+				e.St.Probe("max_signing_attempt_aimed_at_a_signing_in_flight")
+				return
+			}
+		}
+	}
+	if !e.Ch.Bool("tss.churn", p.Rate) {
+		return
+	}
 	cur := e.App().TSSKeeper.GetParams(e.Ctx())
 	np := cur
-	switch e.Ch.Intn("tss.churn.what", 3) {
+	what := e.Ch.Intn("tss.churn.what", 4)
+	if what == 3 {
+		// the signing fee changes while paid signings are in flight
+		bp := e.App().BandtssKeeper.GetParams(e.Ctx())
+		fees := []sdk.Coins{sdk.NewCoins(sdk.NewInt64Coin("uband", 10)), sdk.NewCoins(), sdk.NewCoins(sdk.NewInt64Coin("uband", 7), sdk.NewInt64Coin("uusd", 3)), sdk.NewCoins(sdk.NewInt64Coin("uusd", 1)), sdk.NewCoins(sdk.NewInt64Coin("uband", 25))}
+		nf := fees[e.Ch.Intn("tss.churn.fee", len(fees))]
+		if !nf.Equal(bp.FeePerSigner) {
+			bp.FeePerSigner = nf
+			if bp.Validate() == nil {
+				gov.Propose(e, "params_bandtss", nil, &bandtsstypes.MsgUpdateParams{Authority: govAuthority, Params: bp})
+				e.St.Fault("signing_fee_changed_by_governance")
+			}
+		}
+		return
+	}
+	switch what {
 	case 0:
 		np.MaxDESize = uint64(e.Ch.Range("tss.churn.maxde", 1, 10))
 	case 1:
 		np.SigningPeriod = uint64(e.Ch.Range("tss.churn.period", 1, 8))
 	case 2:
 		np.MaxSigningAttempt = uint64(e.Ch.Range("tss.churn.attempt", 1, 4))
+		// aimed: put the limit just below / at / just above the attempt number of a signing that is in flight
+		tk := e.App().TSSKeeper
+		cnt := tk.GetSigningCount(e.Ctx())
+		var top uint64
+		for sid := cnt; sid > 0 && sid+20 > cnt; sid-- {
+			if sg, err := tk.GetSigning(e.Ctx(), tss.SigningID(sid)); err == nil && sg.Status == tsstypes.SIGNING_STATUS_WAITING && sg.CurrentAttempt > top {
+				top = sg.CurrentAttempt
+			}
+		}
+		if top >= 2 && e.Ch.Bool("tss.churn.attempt.aim", 700) {
+			np.MaxSigningAttempt = uint64(int(top) - 1 + e.Ch.Intn("tss.churn.attempt.off", 3))
+			e.St.Probe("max_signing_attempt_aimed_at_a_signing_in_flight")
+		}
 	}
 	if np.Validate() == nil && np != cur {
 		gov.Propose(e, "params_tss", nil, &tsstypes.MsgUpdateParams{Authority: govAuthority, Params: np})
